@@ -463,8 +463,10 @@ func (e *Engine) VerifyFunction(fn *ssa.Function, ct *Contract) (c *FnCtx) {
 	c.preEnv = &Env{c: c, cur: fr.entry, old: fr.entry, vars: vars, pkg: pkg}
 	c.postEnv = post
 	// ghost updates at return
+	genv := *post
+	genv.frame = fr // ghost_at_return may name source-level locals (their value at the return)
 	for _, g := range ct.GhostRet {
-		if err := c.ghostAssign(post, g); err != nil {
+		if err := c.ghostAssign(&genv, g); err != nil {
 			c.errorf("ghost_at_return: %v", err)
 		}
 	}
@@ -524,11 +526,12 @@ func (c *FnCtx) frameObligations(fr *Frame, exit *State, entryEnv *Env, ct *Cont
 			}
 		}
 	}
-	if all {
-		return
-	}
 	var names []string
 	for k := range exit.heap {
+		if all && !counterGhosts[k] {
+			continue // `everything` covers all ordinary locations; counter ghosts are exempt from the
+			// callers' havoc and therefore have to be listed explicitly to change
+		}
 		names = append(names, k)
 	}
 	sort.Strings(names)
